@@ -167,6 +167,19 @@ def _run_bg(case):
     raw2 = update_metadata(raw, noise_sd=0.01)
     out2 = bg_correct(raw2, bg, df) if df is not None else bg_correct(raw2, bg)
     flags["noise_kept_when_present"] = bool(out2.attrs.get("noise_sd") == 0.01)
+    # one background object serves a stack of frames: other raw frames, with / without / another dark field, and after
+    # the background's pixels were refreshed in place -- each call is (raw - dark)/(bg - dark) for ITS arguments
+    worst = 0.0
+    df2 = raw.copy(data=rng.uniform(0.0, 0.3, raw.shape) * case["scale"])
+    for step in range(5):
+        rw = raw.copy(data=rng.uniform(0.2, 1.8, raw.shape) * case["scale"])
+        dd = [None, df, df2, None, df2][step]
+        if step == 3:
+            bg.values[...] = rng.uniform(1.0, 2.0, raw.shape) * case["scale"]
+        o = bg_correct(rw, bg, dd) if dd is not None else bg_correct(rw, bg)
+        dv = dd.values if dd is not None else 0.0
+        worst = max(worst, relmax(o, (rw.values - dv) / (bg.values - dv)))
+    resid["pixelwise@shared_background"] = worst
     # mismatched shapes are refused
     if raw.sizes["x"] > 2:
         from holopy.core.errors import BadImage
@@ -442,7 +455,7 @@ def _run_center(case):
 
 # ------------------------------------------------------------------ oracle
 
-TOL = {"mean_minus_1": 4e-15, "idempotent": 1e-14, "scale_invariant": 1e-14, "pixelwise": 1e-14,
+TOL = {"mean_minus_1": 4e-15, "idempotent": 1e-14, "scale_invariant": 1e-14, "pixelwise": 1e-14, "pixelwise@shared_background": 1e-14,
        "neighbour_mean": 5e-14, "plane_removed": 1e-10, "pure_plane_to_zero": 1e-10, "acc_mean": 1e-12, "acc_std": 1e-12}
 
 
